@@ -4,7 +4,7 @@ Decided per generated pair by the Coq-proven result checker `pen_cert`
 (coq/theories/Checker/PenMpr.v, theorems exported by Props/C08.v), evaluated by vm_compute on the
 exact rationals of what distance3d.mpr.mpr_penetration returned (depth t, direction u, position pos):
 
-  dir_ok              t >= 0 and (| |u|^2 - 1 | <= 1e-9, or t = 0 and u = 0)            [exact]
+  dir_ok              t >= 0 and (| |u|^2 - 1 | <= 1e-9, or t <= 2^-52 and u = 0)       [exact]
   overlap_le_cert     A vs B moved by t*u: residual overlap <= tol along a witness direction
   overlap_le_cert     A vs B: depth <= t + tol  (t never smaller than the true depth minus tol)
   in_shape_tol (x2)   pos within tol of A and of B (membership witnesses from the harness, untrusted)
@@ -28,6 +28,7 @@ PID = "C08"
 PROOF_FILES = ["theories/Props/C08.v", "theories/Proofs/Mpr.v", "theories/Checker/PenMpr.v", "theories/Checker/Pen.v", "theories/Checker/Narrow.v",
                "theories/Checker/Shapes.v", "theories/Spec/Convex.v"]
 EPS_DIR = Fr(1, 10 ** 9)
+TINY = Fr(1, 2 ** 52)     # zero direction is accepted for depth <= one machine epsilon ("the depth is 0")
 COAXIAL_KINDS = ["sphere", "sphere", "capsule", "cylinder", "ellipsoid", "box"]
 # arms of mpr.py observed by the worker (harness/impl/narrowp.py)
 ALL_ARMS = ["centers_coincide", "discover_ORIGIN_OUTSIDE_PORTAL", "discover_ORIGIN_ON_V1", "discover_ORIGIN_ON_V0V1_SEGMENT",
@@ -179,11 +180,11 @@ def prepare(arg):
 
         def cert(n1_, n2_):
             return (f"pen_cert {A} {B} {tq} {uq} {pq} {nw.vq(npn.rat_dir(n1_))} {nw.vq(npn.rat_dir(n2_))} {wa} {wb} "
-                    f"{nw._q(tol)} {nw._q(EPS_DIR)}")
+                    f"{nw._q(tol)} {nw._q(EPS_DIR)} {nw._q(TINY)}")
         shB = f"(shift (qscale {tq} {uq}) {B})"
         out.update(kind="yes", t=t, ulen=ulen, depth_or=depth_or, overlap_or=ov_or, dA=dA, dB=dB,
                    expr=cert(n1, n2), expr_retry=cert(n_ov, n_or),
-                   parts=[f"dir_ok {tq} {uq} {nw._q(EPS_DIR)}",
+                   parts=[f"dir_ok {tq} {uq} {nw._q(EPS_DIR)} {nw._q(TINY)}",
                           f"overlap_le_cert {A} {shB} {nw.vq(npn.rat_dir(n_ov))} {nw._q(tol)}",
                           f"overlap_le_cert {A} {B} {nw.vq(npn.rat_dir(n_or))} ({tq} + {nw._q(tol)})",
                           f"in_shape_tol {A} {wa} {pq} {nw._q(tol)}",
@@ -389,7 +390,7 @@ def run(tier, seed, replay=None):
                 stats["pen_cert_proved_on_retry"] += 1
                 continue
             if s.get("part0") is False:
-                problems.append(f"depth={pz['t']!r}, |dir|={pz['ulen']!r}: depth negative or direction neither unit (1e-9) nor zero-with-depth-0 (exact check)")
+                problems.append(f"depth={pz['t']!r}, |dir|={pz['ulen']!r}: depth negative or direction neither unit (1e-9) nor zero with depth <= 2^-52 (exact check)")
             if s.get("part1") is False and pz["overlap_or"] > tolf * 1.01:
                 problems.append(f"after translating the second collider by depth*dir the residual overlap is {pz['overlap_or']:.6g} > tol={tolf:.3g}")
             if s.get("part2") is False and pz["depth_or"] > pz["t"] + tolf * 1.01:
@@ -408,7 +409,7 @@ def run(tier, seed, replay=None):
             L = c["meta"].get("L") or nw.scene_scale([c["c1"], c["c2"]])
             seg = bool(r.get("arms", {}).get("origin_on_v0v1_segment"))
             only_pos = all(p_.startswith("contact position") for p_ in problems)
-            if seg and centres_coincide(c, L):
+            if seg and only_pos and centres_coincide(c, L):
                 known_cases.setdefault("F20", []).append((i, problems[0]))
             elif (seg and only_pos and pz["kind"] == "yes" and pz["ulen"] > 0.5 and
                   min(width(c["c1"], r["dir"]), width(c["c2"], r["dir"])) < 0.5 * pz["t"]):
